@@ -149,7 +149,7 @@ def build_yieldify():
     os.makedirs(os.path.dirname(out), exist_ok=True)
     e = env_base()
     e["GOFLAGS"] = ""
-    subprocess.check_call(["go", "build", "-trimpath", "-o", out, src], env=e, cwd=os.path.join(VERIF, "tools", "yieldify"))
+    subprocess.check_call(["go", "build", "-trimpath", "-o", out, "."], env=e, cwd=os.path.join(VERIF, "tools", "yieldify"))
     return out
 
 
